@@ -216,6 +216,18 @@ pub fn c02(a: &Args) {
             let want = format!("{};{}", tt.count_with(&[1, 2]), tt.count_with(&[1, -2]));
             if s != want { out.fail("stream-count-vars", &file.text(), &msg, &s, &want); }
         }
+        // ... with an assumption list that crosses the 20-literal strategy boundary (padding repeats a literal) and several variables
+        if file.n >= 3 {
+            let l0 = if tt.count_with(&[1]) > 0 { 1 } else { -1 };
+            for pad in [18usize, 19, 20, 24] {
+                let asm: Vec<i32> = std::iter::repeat(l0).take(pad).chain([if tt.count_with(&[l0, 2]) > 0 { 2 } else { -2 }]).collect();
+                let vars: Vec<i32> = if pad % 2 == 0 { vec![-3, 3, file.n as i32, -(file.n as i32)] } else { vec![file.n as i32, -3, 3, -(file.n as i32)] };
+                let msg = format!("count a {} v {}", fmt_ints(&asm), fmt_ints(&vars));
+                let s = guarded(|| d.handle_stream_msg(&msg)).unwrap_or_else(|e| format!("panic: {e}"));
+                let want = vars.iter().map(|v| { let mut q = asm.clone(); q.push(*v); tt.count_with(&q).to_string() }).collect::<Vec<_>>().join(";");
+                if s != want { out.fail("stream-count-vars", &file.text(), &msg, &s, &want); }
+            }
+        }
         // the shape of the FFI's `count_multiple` (the cdylib itself cannot be called from here): the library helper it
         // is built from, `util::zip_assumptions_variables`, in its four cases (both empty, one empty, neither)
         for (asm, vars) in [(vec![], vec![]), (vec![], vec![1i32, -1]), (vec![-1i32], vec![]), (vec![1i32], (1..=file.n as i32).rev().collect::<Vec<i32>>())] {
@@ -265,6 +277,15 @@ fn corpus_c02(a: &Args, out: &mut Out, rng: &mut Rng) {
                 if small { out.query("count", &fmt_ints(&padded), &c.to_string()); }
             }
             if small { out.query("count", &fmt_ints(&l), &base.to_string()); }
+            // the stream's `count a A v V` on the same (possibly long, > 20 distinct literals) list: one count per variable,
+            // each equal to the library's count of A + v (which the laws above and the Lean model judge)
+            if !l.is_empty() {
+                let vars: Vec<i32> = (0..3).map(|_| { let v = 1 + rng.below(n as usize) as i32; if rng.chance(0.5) { v } else { -v } }).collect();
+                let msg = format!("count a {} v {}", fmt_ints(&l), fmt_ints(&vars));
+                let got = guarded(|| d.handle_stream_msg(&msg)).unwrap_or_else(|e| format!("panic: {e}"));
+                let want = vars.iter().map(|v| { let mut q = l.clone(); q.push(*v); d.execute_query(&q).to_string() }).collect::<Vec<_>>().join(";");
+                if got != want { out.fail("stream-count-vars", &path, &msg, &got, &want); }
+            }
         }
     }
 }
